@@ -227,16 +227,18 @@ theorem phase_seg {cfg : Cfg} {k : Hash} {e : Entry} {now : Time} {base : List E
   | other hidle hna hs hst _ ih =>
     exact ih (hr.of_step hs) (phase_other_step hr h hna hs hst)
 
-/-- **One sweep reclaims a registered expired entry, whatever the clients do meanwhile to other keys.** -/
-theorem sweep_reclaims_interleaved {cfg : Cfg} {s s' : State} {k : Hash} {e : Entry} {m : AMap Hash Conf}
+/-- **One sweep reclaims a registered expired entry, whatever the clients do meanwhile to other keys.**
+`b` is the bucket the entry is registered in. -/
+theorem sweep_reclaims_interleaved {cfg : Cfg} {s s' : State} {k : Hash} {e : Entry} {b : Int} {m : AMap Hash Conf}
     {ch : Choice} {acts : List Action}
     (hr : Reach cfg s) (hpc : s.app = .tick) (hst : s.store.lookup k = some e) (hz : e.exp ≠ Gen.zeroTime)
-    (hreg : s.em.buckets.lookup (bucketOf e.exp) = some m) (hregk : m.lookup k = some e.conflict)
-    (hlc : -(2:Int)^63 ≤ s.em.lastCleaned) (hnew : s.em.lastCleaned < bucketOf e.exp)
-    (hcov : bucketOf e.exp ≤ cleanupOf s.clock) (hexp : TimeOk e.exp) (hclk : TimeOk s.clock)
+    (hbok : BucketOk b) (hle : bucketOf e.exp ≤ b)
+    (hreg : s.em.buckets.lookup b = some m) (hregk : m.lookup k = some e.conflict)
+    (hlc : LcOk s.em.lastCleaned) (hnew : s.em.lastCleaned < b)
+    (hcov : b ≤ cleanupOf s.clock) (hexp : TimeOk e.exp) (hclk : TimeOk s.clock)
     (hseg : SweepSeg cfg k s (.applier ch :: acts) s') (hidle : s'.app = .idle) :
     Reclaimed k e (fun _ => True) s.log s' := by
-  have hlt := bucket_lt hexp hclk hcov
+  have hlt := bucket_lt hexp hclk (Int.le_trans hle hcov)
   cases hseg with
   | other _ hna => exact absurd rfl (hna ch)
   | applier _ hs hrest =>
@@ -244,7 +246,7 @@ theorem sweep_reclaims_interleaved {cfg : Cfg} {s s' : State} {k : Hash} {e : En
     simp only [applierStep, hpc] at hs'
     obtain ⟨_, hs'⟩ := needNone_some hs'
     simp only [Option.some.injEq] at hs'; subst hs'
-    have hin := inRange_bucket hlc hnew hcov
+    have hin := (inRange_iff hlc hbok (cleanupOf_ok s.clock)).mpr ⟨hnew, hcov⟩
     obtain ⟨hmem, _⟩ := grab_hit hreg hin
     have hph : Phase k e s.clock (fun _ => True) s.log (apTick s) :=
       .pending (s.em.grab s.clock).2 (by simp [apTick, PendingPc]) ⟨m, hmem, hregk⟩ hst rfl trivial
